@@ -1117,9 +1117,44 @@ obs_roundtrip(ini_p ini, const model_t *m) {
 	free(text);
 }
 
+/* keys that point INTO the store (what the enumerators hand out), in every prefix length: a lookup compares names, not
+ * addresses - "[Ab]" enumerated, its first byte used as the key "A" */
+static void
+obs_alias(ini_p ini, const model_t *m) {
+	size_t soff = 0, voff, nsz, vnsz, vsz0, k, j;
+	const uint8_t *name, *vname, *val0;
+	int guard = 0, bad = 0, found = 0;
+
+	if (!vh_begin("ini_val_get"))
+		return;
+	cur_what = "get-with-keys-inside-the-store";
+	for (; 0 == ini_sect_enum(ini, &soff, &name, &nsz) && ++ guard < 4096; soff ++) {
+		for (voff = 0; 0 == ini_sect_val_enum(ini, soff, &voff, &vname, &vnsz, &val0, &vsz0) && ++ guard < 4096; voff ++) {
+			for (k = 1; k <= nsz; k ++) for (j = 1; j <= vnsz; j ++) {
+				const uint8_t *val = NULL; size_t vsz = 12345;
+				m_sect_t *se = m_sect_find((model_t *)m, (const char *)name, k);
+				const m_val_t *ref = (NULL != se) ? m_val_find(se, (const char *)vname, j) : NULL;
+				int rc = ini_val_get(ini, name, k, vname, j, &val, &vsz);
+				if (NULL == ref) {
+					if (0 == rc) { bad = 1; vh_fail("exact-spelling-only", "get('%.*s','%.*s') with keys taken from the enumerators ('%.*s','%.*s' shortened) found '%.*s', no such entry exists",
+					    (int)k, name, (int)j, vname, (int)nsz, name, (int)vnsz, vname, (int)(vsz > 44 ? 44 : vsz), val); }
+				} else if (0 != rc) {
+					bad = 1; vh_fail("present-key-found", "get('%.*s','%.*s') with keys taken from the enumerators rc=%d, reference has '%.*s'", (int)k, name, (int)j, vname, rc, (int)ref->vlen, ref->val);
+				} else if (!m_eq((const char *)val, vsz, ref->val, ref->vlen)) {
+					bad = 1; vh_fail("value-most-recent", "get('%.*s','%.*s') with keys taken from the enumerators ('%.*s','%.*s' shortened) = '%.*s', reference '%.*s'",
+					    (int)k, name, (int)j, vname, (int)nsz, name, (int)vnsz, vname, (int)(vsz > 44 ? 44 : vsz), val, (int)ref->vlen, ref->val);
+				} else found ++;
+			}
+		}
+	}
+	if (!bad && found)
+		vh_nontrivial();
+}
+
 static void
 observe(ini_p ini, const model_t *m) {
 	obs_get_cs(ini, m);
+	obs_alias(ini, m);
 	obs_get_ci(ini, m);
 	obs_get_int(ini, m);
 	obs_enum(ini, m);
